@@ -18,7 +18,7 @@
 (* tokens handed to the matcher are strings.  What key types and datatypes *)
 (* do to a token is environment (KeyConvOf / ConvOf): a table given with   *)
 (* the scenario (G) or recorded from the execution (V).                    *)
-EXTENDS ZLinesFn
+EXTENDS ZLinesFn, Integers
 
 CONSTANTS
   KeyConvOf(_, _),   \* (key type, token)  -> [ok, v]   normalised key or refusal
@@ -132,7 +132,7 @@ AllowedName(c, name) ==
 
 (* ConfigLoader.startSection + BaseMatcher.createChildMatcher +            *)
 (* SectionMatcher.__init__.  Returns [e (message or ""), idx].             *)
-StartSection(vocab, T, tn, name) ==
+StartSect(vocab, T, tn, name) ==
   IF tn \notin DOMAIN vocab THEN [e |-> "unknown type name", idx |-> 0]
   ELSE IF vocab[tn].abstract THEN [e |-> "concrete sections cannot match abstract section types", idx |-> 0]
   ELSE LET si == SectionInfo(vocab, T.children, tn, name, 1) IN
@@ -385,7 +385,7 @@ StepOpen(S, m, c) ==
       name == Str(c.name)
       T    == TopType(S, m)
       top  == m.ms[Len(m.ms)]
-      st   == StartSection(m.vocab, T, tn, name)
+      st   == StartSect(m.vocab, T, tn, name)
   IN  IF st.e # "" THEN Fail(m, Err("syntax", CurLine(m), CurRes(m), "", st.e))
       ELSE LET nm0 == NewMatcher(m.vocab, tn, m.vocab[tn], name, st.idx)
                sp  == IF top.bag.on THEN BagSplit(top.bag.sects, tn, name, 1, <<>>, <<>>)
@@ -482,7 +482,7 @@ StepEnd(S, m) ==
             IN  [m EXCEPT !.out = [r |-> "ok", tree |-> dv.v, hl |-> hl],
                           !.hl = hl, !.ev = Append(@, <<"close", f.rid>>)]
 
-Running(m) == m.out.r = "run"
+IsRunning(m) == m.out.r = "run"
 AtEnd(m)   == CurFrame(m).n >= Len(ResLines(CurFrame(m).rid))
 NextLineOf(m) == ResLines(CurFrame(m).rid)[CurFrame(m).n + 1]
 
@@ -490,6 +490,6 @@ Step(S, m) == IF AtEnd(m) THEN StepEnd(S, m) ELSE StepClass(S, m, Classify(NextL
 
 (* Big step: run to the end (used for relational properties).              *)
 RECURSIVE RunFrom(_, _)
-RunFrom(S, m) == IF ~Running(m) THEN m ELSE RunFrom(S, Step(S, m))
+RunFrom(S, m) == IF ~IsRunning(m) THEN m ELSE RunFrom(S, Step(S, m))
 Load(S, rid, opts) == RunFrom(S, LoadStart(S, rid, opts))
 =========================================================================
